@@ -778,6 +778,29 @@ func (env *specEnv) call(n *SCall) (TV, error) {
 			return TV{}, fmt.Errorf("hits: argument must be a quoted call site \"callee#k\"")
 		}
 		return TV{env.h(hitsKey(ts.V)), "Int", intT()}, nil
+	case "containsByte":
+		// containsByte(s, "c"): the string s contains the byte c (what strings.Contains(s, "c") decides)
+		a, err := env.Term(n.Args[0])
+		if err != nil {
+			return TV{}, err
+		}
+		lit, ok := n.Args[1].(*SStr)
+		if !ok || len(lit.V) != 1 {
+			return TV{}, fmt.Errorf("containsByte: second argument must be a one-byte string literal")
+		}
+		return TV{containsByteFormula(env.view(a).T, int(lit.V[0]), vc), "Bool", nil}, nil
+	case "lastresult":
+		// lastresult("callee#k"): the value that call site returned the last time it executed in this invocation
+		ts, ok := n.Args[0].(*SStr)
+		if !ok || env.e == nil {
+			return TV{}, fmt.Errorf("lastresult: argument must be a quoted call site \"callee#k\"")
+		}
+		T := env.e.resultTypeOfSite(ts.V)
+		if T == nil {
+			return TV{}, fmt.Errorf("lastresult: no call site %q with a result in this function", ts.V)
+		}
+		sort := env.S().SortOf(T)
+		return TV{env.h(resKey(ts.V, sort)), sort, T}, nil
 	case "concat", "hasSuffix", "hasPrefix", "strIndex", "splitLast":
 		a, err := env.Term(n.Args[0])
 		if err != nil {
